@@ -113,6 +113,8 @@ pub enum Item {
     /// usage of the maker macro (`define MK_DEFINE(n, v) `define n v): its expansion is a `define, which takes effect.
     /// `def` is the definition it produces (no formals, plain-token body); rendered exactly like `Use`
     DefineVia(Usage, MacroDef, String),
+    /// usage of the remover macro (`define RM_UNDEF(n) `undef n): its expansion is an `undef of the named macro, which takes effect
+    UndefVia(Usage, String, String),
     FileMacro(String),
     LineMacro { id: usize, ws_after: String },
     /// `resetall (kept)
@@ -324,7 +326,7 @@ pub fn render_items(items: &[Item], out: &mut String, side: &mut Side) {
                 }
                 out.push_str(ws_after);
             }
-            Item::Use(u, ws) | Item::DefineVia(u, _, ws) => {
+            Item::Use(u, ws) | Item::DefineVia(u, _, ws) | Item::UndefVia(u, _, ws) => {
                 render_usage(u, &[], out);
                 out.push_str(ws);
             }
